@@ -10,7 +10,7 @@ class Contract:
     def __init__(self, qualname, params=None, self_ty=None, ret=None, requires=(), ensures=None,
                  raises=None, where=None, loops=None, comps=None, pure=True, assumed=False,
                  properties=(), note="", ret_fields=None, enum_params=None, ghost=None, fn_params=None,
-                 raises_only=False, any_raises=False, locals=None, uses=(), captured=None, ret_py=None, abstractions=None, traced=False, on_raise=None, enum_cover=False, ghost_requires=()):
+                 raises_only=False, any_raises=False, locals=None, uses=(), captured=None, ret_py=None, abstractions=None, traced=False, on_raise=None, enum_cover=False, ghost_requires=(), alternatives=()):
         self.qualname = qualname
         self.params = OrderedDict(params or {})  # name -> type string
         self.self_ty = self_ty
@@ -33,6 +33,7 @@ class Contract:
         self.captured = OrderedDict(captured or {})  # free variables of a nested function: name -> type
         self.ret_py = ret_py  # callable(ctx, st, env) -> python-level result at call sites (for ret='Py...')
         self.abstractions = dict(abstractions or {})  # source text of an expression -> spec expression (ASSUMED reading)
+        self.alternatives = list(alternatives)  # sidecar variants (dicts of attribute overrides) for other known shapes of the body
         self.ghost_requires = list(ghost_requires)  # hypotheses about the ghosts: assumed in the body, guard the ensures at call sites
         self.enum_cover = enum_cover  # enumerate a covering set of variants (every value at least once) instead of the product
         self.traced = traced  # calls are recorded in the ghost trace of the caller
